@@ -87,7 +87,7 @@ def hist_to_tla_json(h):
             "sites": W["sites"],
             "leaves": W["leaves"],
             "attrs": {
-                r: {"hidden": a["hidden"], "pairs": [[chars(k), chars(v)] for k, v in a["pairs"]]}
+                r: {"hidden": a["hidden"], "bare": bool(a.get("bare", False)), "pairs": [[chars(k), chars(v)] for k, v in a["pairs"]]}
                 for r, a in W["attrs"].items()
             },
         },
@@ -101,6 +101,10 @@ def hist_to_tla_json(h):
                 "key": chars(o["key"]),
                 "val": chars(o["val"]),
                 "star": bool(o["star"]),
+                "method": o.get("method", "GET"),
+                "con": bool(o.get("con", False)),
+                "host": chars(o.get("host", "")),
+                "port": int(o.get("port", 0)),
             }
             for o in h["ops"]
         ],
@@ -121,6 +125,10 @@ def act_to_op(a):
         "key": _join(a["key"]),
         "val": _join(a["val"]),
         "star": bool(a["star"]),
+        "method": a["method"],
+        "con": bool(a["con"]),
+        "host": _join(a["host"]),
+        "port": int(a["port"]),
     }
 
 
@@ -176,13 +184,20 @@ def _fmt_links(S):
     return sorted("<%s>%s" % (h, "".join(';%s="%s"' % p for p in sorted(a, key=str))) for h, a in S)
 
 
-def uri_ok(observed, expected):
-    """The URI the handler reconstructed denotes the original path (+ query)."""
+def uri_ok(observed, expected, host="", port=0):
+    """The URI the handler reconstructed denotes the original path (+ query)
+    and -- where the request named them in Uri-Host / Uri-Port -- the original
+    authority (otherwise any authority is accepted)."""
     try:
         u = urllib.parse.urlsplit(observed)
+        uport = u.port
     except ValueError:
         return False
     if u.scheme != "coap" or not u.netloc:
+        return False
+    if host and (u.hostname or "") != host.lower():
+        return False
+    if port and uport != port:
         return False
     got = u.path + ("?" + u.query if u.query else "")
     if got == expected:
@@ -217,7 +232,9 @@ def judge(o, exp, obs):
         eshort = (exp["kind"], exp["id"], exp["seen"])
         sshort = (stale["kind"], stale["id"], stale["seen"])
         oshort = (obs["kind"], obs.get("id", ""), obs.get("seen", []))
-        what = "request %s: expected %s, observed %s" % (
+        what = "%s%s %s: expected %s, observed %s" % (
+            "CON " if o.get("con") else "",
+            o.get("method", "GET"),
             "/" + "/".join(o["path"]),
             "4.04" if exp["kind"] == "nf" else "resource %s given Uri-Path %s" % (exp["id"], exp["seen"]),
             {"nf": "4.04", "hit": "resource %s given Uri-Path %s" % (obs.get("id"), obs.get("seen"))}.get(obs["kind"], obs.get("what")),
@@ -236,9 +253,20 @@ def judge(o, exp, obs):
             return out
         if list(obs["seen"]) != list(exp["seen"]):
             out.append(("C17_StrippedPath", None, what))
-        if not uri_ok(obs["uri"], exp["uri"]):
+        if not uri_ok(obs["uri"], exp["uri"], exp.get("host", ""), exp.get("port", 0)):
             out.append(
-                ("C17_ReconstructUri", None, "request %s: handler reconstructed %r, original URI path/query is %r" % ("/" + "/".join(o["path"]), obs["uri"], exp["uri"]))
+                (
+                    "C17_ReconstructUri",
+                    None,
+                    "request %s: handler reconstructed %r, original URI has path/query %r%s%s"
+                    % (
+                        "/" + "/".join(o["path"]),
+                        obs["uri"],
+                        exp["uri"],
+                        ", host %r" % exp["host"] if exp.get("host") else "",
+                        ", port %d" % exp["port"] if exp.get("port") else "",
+                    ),
+                )
             )
         return out
     if o["op"] == "discover":
@@ -288,7 +316,9 @@ def history_text(ops):
         elif o["op"] == "remove":
             t.append("%s-%s" % (o["site"], _path(o["path"])))
         elif o["op"] == "request":
-            t.append("?%s%s" % (_path(o["path"]), "?" + o["query"] if o["query"] else ""))
+            how = "" if o.get("method", "GET") == "GET" else o["method"] + " "
+            auth = ("@" + o.get("host", "") + (":%d" % o["port"] if o.get("port") else "")) if (o.get("host") or o.get("port")) else ""
+            t.append("?%s%s%s%s" % (how, _path(o["path"]), "?" + o["query"] if o["query"] else "", auth))
         else:
             t.append("wkc?%s=%s%s" % (o["key"], o["val"], "*" if o["star"] else "") if o["key"] else "wkc")
     return ";".join(t)
@@ -319,11 +349,31 @@ def examine(item):
             stats[k] = stats.get(k, 0) + n
 
         viol = []
+        asked_before = set()
+        bare = {r for r, a in item["W"]["attrs"].items() if a.get("bare")}
         for i, (o, e, b) in enumerate(zip(ops, exps, obs)):
             bump("ops")
             if o["op"] == "request":
                 bump("requests")
                 bump("expect_" + e["via"])
+                changed = (e["stale"]["kind"], e["stale"]["id"], e["stale"]["seen"]) != (e["kind"], e["id"], e["seen"])
+                if tuple(o["path"]) in asked_before:
+                    bump("requests_asked_before")
+                    if changed:
+                        bump("requests_asked_before_whose_answer_the_last_mutation_changed")
+                        if e["kind"] == "hit" and e["via"] == "prefix" and e["stale"]["kind"] == "hit":
+                            bump("reasked_prefix_route_changed_by_last_mutation")
+                asked_before.add(tuple(o["path"]))
+                if o.get("method", "GET") != "GET":
+                    bump("requests_not_GET")
+                    if e["kind"] == "nf":
+                        bump("expect_none_not_GET")
+                if o.get("con"):
+                    bump("requests_CON")
+                if (o.get("host") or o.get("port")) and e["kind"] == "hit" and e["via"] == "prefix":
+                    bump("named_authority_through_nested_site")
+                if e["kind"] == "hit" and e["id"] in bare:
+                    bump("expect_bare_resource")
                 if e["kind"] == "hit" and e["seen"]:
                     bump("expect_nonempty_stripped_path")
                 if (e["stale"]["kind"], e["stale"]["id"], e["stale"]["seen"]) != (e["kind"], e["id"], e["seen"]):
@@ -331,15 +381,24 @@ def examine(item):
             elif o["op"] == "discover":
                 bump("listings")
                 bump("links_expected", len(e["all"]))
+                if any(not l["pairs"] for l in e["all"]):
+                    bump("listings_with_attributeless_link")
                 if o["key"]:
                     bump("filters")
+                    if o["key"] not in MULTI_VALUED and o["key"] != "href" and " " in o["val"]:
+                        bump("filters_single_valued_with_space")
                     if 0 < len(e["sel"]) < len(e["all"]):
                         bump("filters_selecting_proper_subset")
             else:
                 bump("mutations")
             for clause, sigclass, detail in judge(o, e, b):
                 # replay data: the mutations so far plus the failing operation
-                core = [x for x in ops[:i] if x["op"] in ("add", "addsite", "remove")] + [o]
+                # (and earlier requests for the same path: the implementation may remember them)
+                core = [
+                    x
+                    for x in ops[:i]
+                    if x["op"] in ("add", "addsite", "remove") or (x["op"] == "request" and o["op"] == "request" and x["path"] == o["path"])
+                ] + [o]
                 viol.append(
                     {
                         "clause": clause,
@@ -365,27 +424,36 @@ def examine(item):
 
 
 # -- randomised histories beyond the model's constants --------------------------------
-SEGS = ["a", "b", "c", "d", "s1", "temp", "x", "", "", ".well-known", "core", "a"]
+SEGS = ["a", "b", "c", "d", "s1", "temp", "x", "", "", ".well-known", "core", "a", "A", "Temp"]
 KEYS = ["rt", "if", "ct", "title", "foo", "sz"]
 VALUES = {
-    "rt": ["temperature", "temp", "core.rd", "core.rd core.rd-lookup", "t1 t2 t3", "x", "ab abc"],
+    "rt": ["temperature", "Temperature", "temp", "core.rd", "core.rd core.rd-lookup", "t1 t2 t3", "x", "ab abc"],
     "if": ["sensor", "core.ll", "core.b core.ll", "s"],
     "ct": ["0", "40", "0 41", "41 60 0", "4"],
-    "title": ["Sensor", "Light", "S"],
-    "foo": ["bar", "barley", "b", "ar"],
+    # single-valued attributes: a space is part of the value
+    "title": ["Sensor", "sensor", "Light", "S", "Living room", "room"],
+    "foo": ["bar", "barley", "b", "ar", "bar baz", "baz"],
     "sz": ["1", "100", "10"],
 }
+
+
+MULTI_VALUED = ("rt", "if", "ct")
+METHODS = ["GET", "GET", "GET", "POST", "PUT", "PUT", "DELETE", "DELETE", "FETCH"]
 
 
 def gen_world(rng):
     nsites = rng.randint(2, 5)
     sites = ["S%d" % i for i in range(nsites)]
     leaves = ["L%d" % i for i in range(1, rng.randint(1, 3) + 1)]
-    attrs = {"wkc": {"hidden": False, "pairs": [["ct", "40"]]}}
+    attrs = {"wkc": {"hidden": False, "bare": False, "pairs": [["ct", "40"]]}}
     for i in range(1, rng.randint(4, 9) + 1):
         keys = [k for k in KEYS if rng.random() < 0.35]
-        attrs["r%d" % i] = {"hidden": rng.random() < 0.2, "pairs": [[k, rng.choice(VALUES[k])] for k in keys]}
-    return {"root": "S0", "sites": sites, "leaves": leaves, "attrs": attrs}
+        attrs["r%d" % i] = {"hidden": rng.random() < 0.2, "bare": False, "pairs": [[k, rng.choice(VALUES[k])] for k in keys]}
+    # one resource that implements interfaces.Resource only (no link description method)
+    attrs["r%d" % (len(attrs))] = {"hidden": False, "bare": True, "pairs": []}
+    # nested sites that are registered through a PathCapable wrapper which is not a Site
+    wrapped = [s for s in sites[1:] if rng.random() < 0.4]
+    return {"root": "S0", "sites": sites, "leaves": leaves, "wrapped": wrapped, "attrs": attrs}
 
 
 def gen_history(rng, nops, mode):
@@ -399,8 +467,34 @@ def gen_history(rng, nops, mode):
     res["S0"][(".well-known", "core")] = "wkc"
     ops = []
 
-    def mk(op, site="S0", path=(), id="", query="", key="", val="", star=False):
-        return {"op": op, "site": site, "path": list(path), "id": id, "query": query, "key": key, "val": val, "star": star}
+    def mk(op, site="S0", path=(), id="", query="", key="", val="", star=False, method="GET", con=False, host="", port=0):
+        return {
+            "op": op, "site": site, "path": list(path), "id": id, "query": query, "key": key, "val": val, "star": star,
+            "method": method, "con": con, "host": host, "port": port,
+        }  # fmt: skip
+
+    recent = []  # request paths issued lately (distinct, newest last)
+
+    def request(p, q=""):
+        p = tuple(p)
+        if p in recent:
+            recent.remove(p)
+        recent.append(p)
+        del recent[:-6]
+        ops.append(
+            mk(
+                "request", "S0", p, query=q,
+                method=rng.choice(METHODS),
+                con=rng.random() < 0.3,
+                host=rng.choice(["", "", "v.example", "sensors.example.org"]),
+                port=rng.choice([0, 0, 0, 61616, 5684]),
+            )
+        )  # fmt: skip
+
+    def ask_again():
+        """after a mutation: what was asked before is asked again"""
+        for p in rng.sample(recent, min(3, len(recent))):
+            request(p)
 
     def below(c):
         seen, todo = {c}, [c]
@@ -475,32 +569,54 @@ def gen_history(rng, nops, mode):
             hrefs = ["/" + "/".join(p) for p in full_paths()]
             h = rng.choice(hrefs)
             m = rng.random()
-            if m < 0.4:
+            if m < 0.35:
                 return "href", h, False
-            if m < 0.8:
+            if m < 0.7:
                 return "href", h[: rng.randint(0, len(h))], True
-            return "href", h[rng.randint(0, len(h)) :], True
+            if m < 0.85:
+                return "href", h[rng.randint(0, len(h)) :], True
+            return "href", h.swapcase(), rng.random() < 0.5  # paths are case-sensitive
         if r < 0.35 or not used:
             return rng.choice(["zz", "rt", "if", "ct", "title", "foo"]), rng.choice(["", "x", "4"]), rng.random() < 0.6
         k, v = rng.choice(used)
-        part = rng.choice(v.split(" "))
+        # an item of the value; for single-valued attributes also the whole value (spaces included)
+        part = rng.choice(v.split(" ")) if (k in MULTI_VALUED or rng.random() < 0.5) else v
         m = rng.random()
-        if m < 0.35:
+        if m < 0.3:
             return k, part, False
-        if m < 0.65:
+        if m < 0.55:
             return k, part[: rng.randint(0, len(part))], True
-        if m < 0.8:
+        if m < 0.7:
             return k, part[rng.randint(0, len(part)) :], True  # a suffix: prefix test must not be a substring test
-        if m < 0.9:
+        if m < 0.8:
             return k, part + "x", rng.random() < 0.5
+        if m < 0.92:
+            return k, part.swapcase(), rng.random() < 0.5  # values are case-sensitive
         return k, "", True
 
-    for n in range(nops):
-        build_phase = n < 10
+    guard = 0
+    while len(ops) < nops and guard < 20 * nops:
+        guard += 1
+        build_phase = len(ops) < 10
         r = rng.random()
         if r < (0.85 if build_phase else 0.3):
+            before = len(ops)
             m = rng.random()
-            if m < 0.5:
+            aim = [p for p in recent if len(p) >= 2]
+            if not build_phase and aim and m < 0.3:
+                # aimed at a path that was asked before: a nested site at one of its
+                # proper prefixes / a resource at exactly that path, at the root
+                P = rng.choice(aim)
+                if rng.random() < 0.7:
+                    p = P[: rng.randint(1, len(P) - 1)]
+                    c = rng.choice(sites[1:] + leaves)
+                    sub["S0"][p] = c
+                    ops.append(mk("addsite", "S0", p, c))
+                elif P != (".well-known", "core"):
+                    rid = rng.choice(rids)
+                    res["S0"][P] = rid
+                    ops.append(mk("add", "S0", P, rid))
+            elif m < 0.55:
                 s = rng.choice(sites)
                 p = reg_path(0)
                 if s == "S0" and p == (".well-known", "core"):
@@ -531,17 +647,17 @@ def gen_history(rng, nops, mode):
                 else:
                     del res[s][p]
                 ops.append(mk("remove", s, p))
+            if len(ops) > before and not build_phase:
+                ask_again()
         elif r < 0.8:
-            q = rng.choice(["", "", "k=1", "a=b&c"]) if rng.random() < 0.3 else ""
-            if "&" in q:
-                q = "a=b"
-            ops.append(mk("request", "S0", req_path(), query=q))
+            q = rng.choice(["k=1", "a=b"]) if rng.random() < 0.2 else ""
+            request(req_path(), q)
         else:
             if rng.random() < 0.15:
                 ops.append(mk("discover", "S0", (".well-known", "core")))
             else:
                 k, v, st = a_filter()
-                if " " in v:
+                if " " in v and k in MULTI_VALUED:
                     v = v.split(" ")[0]
                 ops.append(mk("discover", "S0", (".well-known", "core"), key=k, val=v, star=st))
     return {"W": W, "ops": ops, "mode": mode}
@@ -699,7 +815,8 @@ def work(rep, args):
             "root": mw["root"],
             "sites": sorted(mw["sites"]),
             "leaves": sorted(mw["leaves"]),
-            "attrs": {r: {"hidden": bool(a["hidden"]), "pairs": [list(p) for p in a["pairs"]]} for r, a in mw["attrs"].items()},
+            "wrapped": sorted(mw["wrapped"]),
+            "attrs": {r: {"hidden": bool(a["hidden"]), "bare": bool(a["bare"]), "pairs": [list(p) for p in a["pairs"]]} for r, a in mw["attrs"].items()},
         }
         files = sorted(os.path.join(d, f) for d in simdirs for f in os.listdir(d) if f.startswith("tr_"))
         if len(files) < nsim:
@@ -733,7 +850,21 @@ def work(rep, args):
         if res["loop_exceptions"] or res["log_errors"]:
             rep.add_drift("event-loop exception / error log while serving a %s: %s" % (it["src"], res["log_errors"][:1]))
     # vacuity: the replayed material must actually exercise every rule
-    for k in ("expect_exact", "expect_prefix", "expect_none", "expect_nonempty_stripped_path", "filters_selecting_proper_subset", "mutations"):
+    for k in (
+        "expect_exact",
+        "expect_prefix",
+        "expect_none",
+        "expect_nonempty_stripped_path",
+        "filters_selecting_proper_subset",
+        "mutations",
+        "requests_asked_before_whose_answer_the_last_mutation_changed",
+        "reasked_prefix_route_changed_by_last_mutation",
+        "expect_none_not_GET",
+        "requests_CON",
+        "named_authority_through_nested_site",
+        "expect_bare_resource",
+        "listings_with_attributeless_link",
+    ):
         for src in ("model-behaviour", "random-history"):
             if not stats.get("%s.%s" % (src, k)):
                 raise MachineryError("vacuous run: no %s among the %s cases" % (k, src))
